@@ -51,6 +51,7 @@ class C01(Check):
 
     def bounds(self, tier):
         return {'shapes_TxK': self._shapes(tier), 'beta_forms': ['scalar', 'vector'],
+                'integer-dtype tables': 'entries -4..4, T x K up to 3x2' + ('' if tier == 'quick' else ', 4x2, 3x3'),
                 'costs': 'unconstrained reals (ties, negatives, any spread)', 'beta': '>= 0'}
 
     def _shapes(self, tier):
@@ -70,6 +71,12 @@ class C01(Check):
                                    witness_every=(1 if K ** T <= 8 else 7 if not big else 211)))
         for (T, K) in [(2, 2), (3, 2)] + ([(3, 3)] if tier == 'thorough' else []):
             cfgs.append(Config('both_forms_T%d_K%d' % (T, K), self.both_forms, {'T': T, 'K': K}))
+        # the cost table as an integer array (costs are integers, beta is not): the kernel's work
+        # buffers must not inherit a dtype in which a cost-to-go cannot be stored
+        for (T, K) in [(2, 2), (3, 2)] + ([(4, 2), (3, 3)] if tier == 'thorough' else []):
+            for form in ('vector', 'scalar'):
+                cfgs.append(Config('kernel_int_table_T%d_K%d_%s' % (T, K, form), self.kernel,
+                                   {'T': T, 'K': K, 'form': form, 'table': 'int64'}, split=4, witness_every=5))
         # many clusters: the successor table must hold indices up to K-1 (K = 300 > 2^8)
         for K in ([300] if tier == 'quick' else [300, 1000]):
             cfgs.append(Config('kernel_wide_K%d' % K, self.wide, {'K': K}, witness_every=1))
@@ -80,9 +87,14 @@ class C01(Check):
         return cfgs
 
     # ---- the kernel against a symbolic rival
-    def kernel(self, c, T, K, form):
+    def kernel(self, c, T, K, form, table='float64'):
         Rp = self.R
-        cost = stubs.sym_array(c, 'c', (T, K), writeable=False)
+        if table == 'int64':
+            cost = stubs.sym_array(c, 'c', (T, K), kind='int', lo=-4, hi=4, writeable=False)
+            c.notes['table_dtype'] = 'int64'
+        else:
+            cost = stubs.sym_array(c, 'c', (T, K), writeable=False)
+            c.notes.pop('table_dtype', None)
         if form == 'vector':
             beta_in = stubs.sym_array(c, 'b', (T,), lo=0, writeable=False)
             beta = [beta_in[i] for i in range(T)]
